@@ -488,7 +488,7 @@ def check_validation(ctx: Any, case: dict[str, Any], model: Any) -> None:
 # ------------------------------------------------------------------------------------------------ B: _compute_delay
 
 RA_VALUES: list[Any] = [None, math.nan, math.inf, -math.inf, -5.0, -0.0, 0.0, 0.125, 1.0, 29.5, 30.0, 31.0, 1e300, 2.0**-1074, 7]
-ATTEMPTS = [0, 1, 2, 3, 10, 62, 63, 64, 1021, 1022, 1023, 1024, 1025, 2047, 5000, 10**9]
+ATTEMPTS = [0, 1, 2, 3, 10, 62, 63, 64, 1021, 1022, 1023, 1024, 1025, 2047, 5000, 65536]  # (2**n is computed by unrepaired code)
 
 
 def run_delay(ctx: Any, pin: Pin) -> None:
@@ -714,7 +714,8 @@ def random_config(rng: Any, mr: int) -> dict[str, Any]:
 
 def run_loop(ctx: Any, pin: Pin) -> None:
     rng = ctx.rng
-    thorough = ctx.tier == "thorough" or ctx.deep
+    thorough = ctx.tier == "thorough"
+    deep = ctx.deep and not thorough  # a proof / the correspondence is broken: search harder, but stay within minutes
     plan: list[tuple[dict[str, Any], str]] = []
     for mr in (0, 1):
         for c in core_configs(mr):
@@ -724,7 +725,9 @@ def run_loop(ctx: Any, pin: Pin) -> None:
     plan.append((core_configs(2)[0], "full" if thorough else "medium"))
     plan.append((random_config(rng, 2), "medium"))
     for c in core_configs(2)[1:]:
-        plan.append((c, "medium" if thorough else "small"))
+        plan.append((c, "medium" if (thorough or deep) else "small"))
+    if deep:
+        plan.append((core_configs(3)[0], "small"))
     if thorough:
         for _ in range(6):
             plan.append((random_config(rng, 2), "medium"))
@@ -738,7 +741,7 @@ def run_loop(ctx: Any, pin: Pin) -> None:
         n = enumerate_runs(ctx, pin, c, level, i)
         per_mr[c["max_retries"]] = per_mr.get(c["max_retries"], 0) + n
     ctx.note("run_sequences_by_max_retries", per_mr)
-    ctx.note("exhaustive_up_to_max_retries", 4 if thorough else 2)
+    ctx.note("exhaustive_up_to_max_retries", 4 if thorough else (3 if deep else 2))
 
     # sweeps: every status code, every exception variant, every header spelling
     sweep: list[tuple[dict[str, Any], list[dict[str, Any]]]] = []
@@ -1084,7 +1087,7 @@ def run_sites(ctx: Any, pin: Pin) -> None:
         cfgs: list[dict[str, Any] | None] = [None, cfg_case(1, 0.5, 30.0, DEFAULT_SET, True, True), cfg_case(2, 1.0, 0.25, DEFAULT_SET, True, True),
                                               cfg_case(0, 0.5, 30.0, DEFAULT_SET, True, True), cfg_case(1, 0.5, 30.0, [500, 503], False, True)]
         cases: list[dict[str, Any]] = []
-        thorough = ctx.tier == "thorough" or ctx.deep
+        thorough = ctx.tier == "thorough"
         for site in ("exchange", "cancel", "unary", "init", "continuation"):
             alpha = site_alphabet(site, None, rng)
             # all scripts of length <= 2 (quick) / <= 3 (thorough) for the direct sites, sampled beyond
